@@ -103,8 +103,6 @@ impl<T> Sender<T> {
     where
         F: FnOnce(&mut Option<T>),
     {
-        #[cfg(scylla_verif)]
-        crate::verif::trace::emit("merge", "ModBegin", &[]);
         if self.shared.receiver_dropped.load(Ordering::Acquire) {
             #[cfg(scylla_verif)]
             crate::verif::trace::emit("merge", "ModLoadFlag", &[("v", 1)]);
@@ -134,8 +132,6 @@ impl<T> Drop for Sender<T> {
     fn drop(&mut self) {
         // The flag must be set before notifying, so that a receiver woken by
         // this notification is guaranteed to observe it.
-        #[cfg(scylla_verif)]
-        crate::verif::trace::emit("merge", "SndDropBegin", &[]);
         self.shared.sender_dropped.store(true, Ordering::Release);
         #[cfg(scylla_verif)]
         crate::verif::trace::emit("merge", "SndDropFlag", &[]);
@@ -206,8 +202,6 @@ impl<T> Receiver<T> {
 impl<T> Drop for Receiver<T> {
     fn drop(&mut self) {
         self.shared.receiver_dropped.store(true, Ordering::Release);
-        #[cfg(scylla_verif)]
-        crate::verif::trace::emit("merge", "RcvDrop", &[]);
     }
 }
 
